@@ -472,7 +472,8 @@ class RuntimeContext:
     ):
         # err = Error(e)
         self.errors.append(e)
-        if force_raise or not self.options.collect_errors:
+        if force_raise or self.force_error or not self.options.collect_errors:
+            # force_error: a single assignment (attribute / item setter) has nobody to hand collected errors to
             raise e
 
         if (
